@@ -177,7 +177,7 @@ impl Prop for Replies {
         }
     }
     fn floors() -> Vec<(&'static str, u32)> {
-        vec![("mixed_headers", 80), ("no_reply_function", 60), ("state:SolWait", 80), ("state:UnsolWaitData", 40), ("state:UnsolWaitNull", 40), ("echo_exceeds_tx", 4)]
+        vec![("mixed_headers", 40), ("no_reply_function", 30), ("state:SolWait", 40), ("state:UnsolWaitData", 20), ("state:UnsolWaitNull", 20), ("echo_exceeds_tx", 2)]
     }
     fn strategy(_tier: Tier) -> BoxedStrategy<Case> {
         let kind = prop_oneof![
